@@ -26,6 +26,7 @@ COQ_KIND = {'out': 'Outgoing', 'resp': 'Outgoing', 'server': 'Server', 'in': 'In
 F14 = 'F14-accept-reports-CONNECTED-after-close'
 F15 = 'F15-cancelled-connect-stays-CONNECTING-and-registered'
 N1 = 'C10-N1-connect-completes-after-concurrent-disconnect'
+N2 = 'C10-N2-accepted-connection-closed-by-listener-stays-registered'
 
 
 # ---------------------------------------------------------------------------------------
@@ -101,6 +102,9 @@ def classify(sc, r, viols):
         if key is None and chk == 'registry_exact' and kind in ('out', 'resp') and r['state'] == 'CONNECTING' \
                 and r['attempt'] == 'cancelled' and r['in_registry'] and rep == ['CONNECTING']:
             key = F15
+        if key is None and chk == 'registry_exact' and kind == 'in' and sc.get('listeners') == 'reentrant' and r['in_registry'] \
+                and r['state'] == 'CLOSED' and rep == ['CONNECTED', 'CLOSING', 'CLOSED']:
+            key = N2
         if key is None:
             key = f'{chk}:{kind}:' + '>'.join(s[:5] for s in rep)[:60]
         out.setdefault(key, []).append((chk, det))
@@ -300,6 +304,7 @@ def examine(run, sc, r, source):
         what = {
             F14: 'ListeningConnection.accept runs set_state(CONNECTED) after on_peer_accepted closed the connection: CONNECTED reported after CLOSING/CLOSED',
             F15: 'DataConnection.connect does not handle CancelledError: the cancelled attempt leaves the connection CONNECTING and in Network.peer_connections',
+            N2: 'a listener disconnecting an accepted connection inside its CONNECTED notification: the closed connection is registered afterwards and stays',
             N1: 'disconnect() during open_connection does not stop the attempt: connect() then reports CONNECTED after CLOSED; the socket is open, unregistered, receives and sends',
         }.get(key, f'{items[0][0]} violated: reported={r["reported"]} {items[0][1]}')
         run.add_finding(Finding(key, what, {'scenario': sc, 'checks': sorted({c for c, _ in items})},
@@ -360,9 +365,34 @@ def run(run: Run):
                 continue
             nev = sum(len(g) for g in r['events'])
             run.case({'sc': sc, 'ev': r['events']}, nontrivial=nev >= 3, kind=f'{source}:{sc["kind"]}')
+            if sc.get('listeners'):
+                r['delivered_while_closing'] = 0
+                examine(run, sc, r, source)     # scenarios with extra listeners: property monitors only (the machine has none)
+                continue
             flagged = examine(run, sc, r, source)
             rows.append(coq_case(len(rows), sc, r, flagged))
             kept.append((sc, r))
+    finally:
+        c10_sim.cleanup_tmp()
+
+    # other users of the event bus (EventBus.emit awaits coroutine listeners in priority order and swallows their exceptions):
+    # the same scenarios with suspending / raising / re-entrant listeners, registered up front or late -- property monitors only
+    # (the machine has no listeners); always part of the search, denser on a broken tie and in the thorough tier
+    every = 2 if (run.broken or run.tier != 'quick') else 12
+    try:
+        for mode in ('suspend', 'raise', 'reentrant'):
+            for k, sc0 in enumerate(systematic()):
+                if k % every != run.seed % every:
+                    continue
+                sc = dict(sc0, listeners=mode, listeners_late=bool(k % 2))
+                try:
+                    r = c10_sim.run_scenario(sc)
+                except Exception as e:
+                    run.add_finding(Finding(f'crash:{type(e).__name__}', f'scenario raised {type(e).__name__}: {e}', {'scenario': sc}))
+                    continue
+                run.case({'sc': sc}, kind=f'listeners:{mode}')
+                r['delivered_while_closing'] = 0    # a listener ahead may hold an event back: only the property text is demanded here
+                examine(run, sc, r, 'listeners')
     finally:
         c10_sim.cleanup_tmp()
 
